@@ -16,7 +16,9 @@ import types
 
 from .common import cbool, clist
 
-assert sys.version_info[:2] == (3, 12), "the with-machine models CPython 3.12 bytecode"
+PYVER = sys.version_info[:2]
+assert PYVER in ((3, 11), (3, 12)), "the with-machine models CPython 3.11 and 3.12 bytecode"
+VER = "V312" if PYVER == (3, 12) else "V311"
 
 # (pops, pushes) of the opcodes that are plain IGen; cross-checked against dis.stack_effect
 _FIXED = {
@@ -43,6 +45,15 @@ _FIXED = {
     "CALL_INTRINSIC_1": (1, 1), "CALL_INTRINSIC_2": (2, 1),
     "KW_NAMES": (0, 0), "RETURN_GENERATOR": (0, 1), "END_ASYNC_FOR": (2, 0),
 }
+if PYVER == (3, 11):
+    _FIXED.update({
+        "UNARY_POSITIVE": (1, 1), "PRINT_EXPR": (1, 0), "LIST_TO_TUPLE": (1, 1), "IMPORT_STAR": (1, 0),
+        "ASYNC_GEN_WRAP": (1, 1), "PREP_RERAISE_STAR": (2, 1), "LOAD_CLASSDEREF": (0, 1), "LOAD_METHOD": (1, 2),
+    })
+    for _k in ("BINARY_SLICE", "STORE_SLICE", "END_FOR", "CALL_INTRINSIC_1", "CALL_INTRINSIC_2", "LOAD_FAST_CHECK",
+               "LOAD_FAST_AND_CLEAR", "LOAD_FROM_DICT_OR_DEREF", "LOAD_FROM_DICT_OR_GLOBALS", "LOAD_LOCALS"):
+        _FIXED.pop(_k, None)
+
 CANNOT_RAISE = {"PUSH_NULL", "LOAD_FAST", "STORE_FAST", "MAKE_CELL", "COPY_FREE_VARS", "LOAD_CLOSURE",
                 "RETURN_GENERATOR", "KW_NAMES", "LOAD_FAST_AND_CLEAR", "END_FOR", "IS_OP"}
 
@@ -60,7 +71,7 @@ def pops_pushes(ins):
     if n == "LOAD_GLOBAL":
         return (0, 2 if (a & 1) else 1)
     if n == "LOAD_ATTR":
-        return (1, 2 if (a & 1) else 1)
+        return (1, 2 if (a & 1) and PYVER >= (3, 12) else 1)
     if n == "LOAD_SUPER_ATTR":
         return (3, 2 if (a & 1) else 1)
     if n in ("BUILD_TUPLE", "BUILD_LIST", "BUILD_SET", "BUILD_STRING", "BUILD_SLICE"):
@@ -97,6 +108,16 @@ def abstract_code(co: types.CodeType):
             u = ("INop",)
         elif n == "RESUME":
             u = ("IResume",)
+        elif n == "PRECALL":
+            u = ("IPrecall",)
+        elif n in ("JUMP_IF_FALSE_OR_POP", "JUMP_IF_TRUE_OR_POP"):
+            u = ("IJumpOrPop", ins.argval // 2)
+        elif n in ("POP_JUMP_FORWARD_IF_FALSE", "POP_JUMP_FORWARD_IF_TRUE",
+                   "POP_JUMP_BACKWARD_IF_FALSE", "POP_JUMP_BACKWARD_IF_TRUE",
+                   "POP_JUMP_BACKWARD_IF_NONE", "POP_JUMP_BACKWARD_IF_NOT_NONE"):
+            u = ("ICondJump", ins.argval // 2, True)        # truth test or eval-breaker check may raise
+        elif n in ("POP_JUMP_FORWARD_IF_NONE", "POP_JUMP_FORWARD_IF_NOT_NONE"):
+            u = ("ICondJump", ins.argval // 2, False)
         elif n == "LOAD_CONST":
             u = ("ILoadConst", ins.argval is None)
         elif n == "POP_TOP":
@@ -147,6 +168,12 @@ def abstract_code(co: types.CodeType):
             u = ("IForIter", ins.argval // 2)
         else:
             p, q = pops_pushes(ins)
+            try:
+                eff = dis.stack_effect(ins.opcode, ins.arg, jump=False) if ins.opcode >= dis.HAVE_ARGUMENT else dis.stack_effect(ins.opcode)
+            except ValueError:
+                eff = None
+            if eff is not None and eff != q - p and n != "RETURN_GENERATOR":   # dis reports 0: the generator object is pushed into the new frame
+                raise Unsupported("%s: table says %d-%d, dis.stack_effect says %d" % (n, q, p, eff))
             u = ("IGen", p, q, n not in CANNOT_RAISE)
         units.append(u)
     table = []
@@ -246,7 +273,7 @@ def trans(units, table, p, st, tr):
     nxt = lambda s2: [(p + 1, tuple(s2), tr)]
     exc = lambda: exc_edge(table, False, p, st, tr)
     need = lambda n: (_ for _ in ()).throw(Stuck(f"pc {p} {k}: stack too shallow")) if len(st) < n else None
-    if k in ("ICache", "IExtArg", "INop"):
+    if k in ("ICache", "IExtArg", "INop", "IPrecall"):
         return nxt(st)
     if k == "IResume":
         return nxt(st) + exc()
@@ -285,7 +312,8 @@ def trans(units, table, p, st, tr):
     if k == "ISend":
         need(2)
         recv, r = st[1], st[2:]
-        return [(p + 1, ("O", recv) + r, tr), (u[1], ("O", recv) + r, event(recv, tr))] + exc()
+        done = ("O", recv) + r if VER == "V312" else ("O",) + r
+        return [(p + 1, ("O", recv) + r, tr), (u[1], done, event(recv, tr))] + exc()
     if k == "IEndSend":
         need(2)
         return nxt((st[0],) + st[2:])
@@ -296,7 +324,12 @@ def trans(units, table, p, st, tr):
     if k == "IYield":
         need(1)
         r = st[1:]
-        return nxt(("O",) + r) + exc_edge(table, True, p, ("O",) + r, tr)
+        if VER == "V312":
+            return nxt(("O",) + r) + exc_edge(table, True, p, ("O",) + r, tr)
+        out = nxt(("O",) + r) + exc_edge(table, False, p, ("O",) + r, tr)
+        if p >= 1 and units[p - 1][0] == "ISend" and r:
+            out = out + [(units[p - 1][1], ("O",) + r[1:], event(r[0], tr))]
+        return out
     if k == "ICall":
         n = u[1]
         need(n + 2)
@@ -336,8 +369,14 @@ def trans(units, table, p, st, tr):
             raise Stuck(f"pc {p}: conditional jump on a tagged value")
         r = st[1:]
         return [(p + 1, r, tr), (u[1], r, tr)] + (exc() if u[2] else [])
+    if k == "IJumpOrPop":
+        need(1)
+        if is_tag(st[0]):
+            raise Stuck(f"pc {p}: jump-or-pop on a tagged value")
+        return [(p + 1, st[1:], tr), (u[1], st, tr)] + exc()
     if k == "IForIter":
-        return [(p + 1, ("O",) + st, tr), (u[1], ("O",) + st, tr)] + exc()
+        done = ("O",) + st if VER == "V312" else st[1:]
+        return [(p + 1, ("O",) + st, tr), (u[1], done, tr)] + exc()
     if k == "IGen":
         pops, pushes, raises = u[1], u[2], u[3]
         need(pops)
